@@ -90,7 +90,7 @@ func ruleOneAggregation(r *Run, rule string, fn *ssa.Function, dir, kind string)
 			r.Check(ok, rule, key, rs, "the input is returned unchanged only when it is empty", "the input list is returned without aggregation although it is not empty (no de-duplication, no ordering)")
 			continue
 		}
-		ok := cellOf(v) == sortedCell && domInstr(sortCall, ret)
+		ok := (cellOf(v) == sortedCell || (len(ret.Results) > 0 && cellOf(ret.Results[0]) == sortedCell)) && domInstr(sortCall, ret)
 		r.Check(ok, rule, key, rs, "returns the aggregated list after sorting it", "returned value is not the sorted aggregated list")
 	}
 	// (3) one output per distinct id: every append to the sorted list happens once per key of a map ranged completely
@@ -104,6 +104,36 @@ func ruleOneAggregation(r *Run, rule string, fn *ssa.Function, dir, kind string)
 			}
 		}
 	})
+	if len(outAppends) == 0 {
+		// the list is built as a plain value (by an inlined collect helper) and stored into the sorted variable once:
+		// the appends of the accumulator that reaches that store
+		for _, ref := range *sortedCell.Referrers() {
+			st, ok := ref.(*ssa.Store)
+			if !ok || st.Addr != ssa.Value(sortedCell) {
+				continue
+			}
+			seen := map[ssa.Value]bool{}
+			var walk func(v ssa.Value, depth int)
+			walk = func(v ssa.Value, depth int) {
+				if seen[v] || depth > 6 {
+					return
+				}
+				seen[v] = true
+				switch x := v.(type) {
+				case *ssa.Phi:
+					for _, e := range x.Edges {
+						walk(e, depth+1)
+					}
+				case *ssa.Call:
+					if ac, isAppend := isBuiltinCall(x, "append"); isAppend {
+						outAppends = append(outAppends, ac)
+						walk(ac.Call.Args[0], depth+1)
+					}
+				}
+			}
+			walk(st.Val, 0)
+		}
+	}
 	if len(outAppends) != 1 {
 		r.Bad(rule, "agg:"+name+":one-per-id", site, fmt.Sprintf("%d appends to the output list, expected exactly one (per distinct id)", len(outAppends)))
 		return
